@@ -266,6 +266,32 @@ theorem c06_closing_packets_finish (C : Cfg) (E : Env) (st : St) (i : In) (q q' 
   rw [hrun] at h1; simp at h1; subst h1; subst hc
   cases hp : (step C E st i).1.pc <;> simp_all [okQ]
 
+/-- **no answer before the request**: whatever arrives while the handshake is awaited — the
+    handshake itself, a tick, an adapter completion, end of stream — nothing is sent and the status
+    service is not asked; the Status Response can only stem from a later input (the request) -/
+theorem c06_handshake_step_silent (C : Cfg) (E : Env) (st : St) (i : In) (hpc : st.pc = .awaitHandshake) :
+    sends (step C E st i).2 = [] ∧ ∀ c, Out.callStatus c ∉ (step C E st i).2 := by
+  unfold step onFrame onAdapterDone kaTick hHandshake fail
+  simp only [hpc]
+  repeat' split
+  all_goals simp_all [sends, keepAlivePhase]
+
+/-- a normal end of the run (`finish none`) is justified by a Pong or a Transfer in the same step -/
+def NormalFinishJustified (o : List Out) : Prop :=
+  Out.finish none ∉ o ∨ (∃ p, Out.send (.pong p) ∈ o) ∨ (∃ a b, Out.send (.transfer a b) ∈ o)
+
+set_option maxHeartbeats 1600000 in
+/-- **a completed run ends with Pong or Transfer**: the only steps that finish a connection
+    normally are the one that sends the Pong and the one that sends the Transfer — a logged-in
+    client is never left with a normal end and neither Transfer nor (through an error end) Disconnect -/
+theorem c06_normal_finish_after_pong_or_transfer (C : Cfg) (E : Env) (st : St) (i : In) :
+    NormalFinishJustified (step C E st i).2 := by
+  unfold step onFrame onAdapterDone kaTick hHandshake hStatusReq hPing hLoginStart hSessionCookie
+    hAuthCookie onAuthCookie hEncResp onEncResp hLoginAck hClientInfo routingFrame afterSession
+    finishRouting sendEncReq kaEcho fail
+  repeat' split
+  all_goals (simp_all [NormalFinishJustified])
+
 /-- the single packet id each handshake / status / login step expects -/
 def expectedId : Pc → Option Int
   | .awaitHandshake => some 0 | .awaitStatusReq => some 0 | .awaitPing => some 1
